@@ -46,6 +46,7 @@ def make_graph(rnd, n, kind):
 
 class H(Harness):
     ID = 'C14'
+    ANCHOR_FILES = ['epydemic/percolate.py', 'epydemic/processsequence.py', 'epydemic/networkexperiment.py']
     TIE_IMPORT = 'From EpyV Require Import Tie.C14.'
     CHECK_FN = 'EpyV.Tie.C14.check_case'
     QUICK_N = 500
